@@ -19,9 +19,11 @@ import (
 	"io"
 	"math/big"
 	"os"
+	"runtime"
 	"sort"
 	"strconv"
 	"strings"
+	"sync"
 	"time"
 
 	"golang.org/x/crypto/blake2b"
@@ -622,6 +624,14 @@ func runExt(d desc) outcome {
 		for i := 0; i < softspoken.Kappa; i++ {
 			tampers = append(tampers, extTamper{"T" + strconv.Itoa(i), flip(hon.T[i], tr.Intn(128))})
 		}
+	case "bytes":
+		// one bit in every byte of X and, for every i, in byte i mod 16 of T[i]
+		for b := 0; b < 16; b++ {
+			tampers = append(tampers, extTamper{"X", flip(hon.X, b*8+tr.Intn(8))})
+		}
+		for i := 0; i < softspoken.Kappa; i++ {
+			tampers = append(tampers, extTamper{"T" + strconv.Itoa(i), flip(hon.T[i], (i%16)*8+tr.Intn(8))})
+		}
 	default:
 		// explicit list "X:<hex>;T<i>:<hex>" (replay of a reported alteration)
 		for _, spec := range strings.Split(d.get("tamper"), ";") {
@@ -879,6 +889,11 @@ func genCases(seed int64, tier string, search bool) []desc {
 			}
 		}
 	}
+	if thorough {
+		for _, dsh := range []string{"rand", "zero", "one"} {
+			add("ext", "xi", "256", "L", "2", "delta", dsh, "x", "rand", "src", "synth", "tamper", "bytes")
+		}
+	}
 	// extension on real base-OT outputs, and the base OTs themselves
 	curvesL := []string{"k256", "p256"}
 	for _, c := range curvesL {
@@ -927,15 +942,40 @@ func main() {
 	var outs []outcome
 	var lines []string
 	timing := map[string]float64{}
-	for _, d := range ds {
-		var o outcome
-		t0 := time.Now()
-		if p := vh.Safely(func() { o = runOne(d) }); p != "" {
-			o = outcome{d: d, class: "harness-panic"}
-			o.prop = append(o.prop, mm(d, "prop", "panic-"+d.kind, "no panic on valid inputs", p, true))
-		}
-		timing[d.kind] += time.Since(t0).Seconds()
-		outs = append(outs, o)
+	// cases are independent and every random choice derives from (seed, case text): run them on a small
+	// worker pool, collect by index (deterministic result order)
+	outs = make([]outcome, len(ds))
+	durs := make([]float64, len(ds))
+	var wg sync.WaitGroup
+	next := make(chan int)
+	workers := 8
+	if n := runtime.NumCPU(); n < workers {
+		workers = n
+	}
+	for w := 0; w < workers; w++ {
+		wg.Add(1)
+		go func() {
+			defer wg.Done()
+			for k := range next {
+				d := ds[k]
+				t0 := time.Now()
+				var o outcome
+				if p := vh.Safely(func() { o = runOne(d) }); p != "" {
+					o = outcome{d: d, class: "harness-panic"}
+					o.prop = append(o.prop, mm(d, "prop", "panic-"+d.kind, "no panic on valid inputs", p, true))
+				}
+				outs[k] = o
+				durs[k] = time.Since(t0).Seconds()
+			}
+		}()
+	}
+	for k := range ds {
+		next <- k
+	}
+	close(next)
+	wg.Wait()
+	for k, o := range outs {
+		timing[ds[k].kind] += durs[k]
 		lines = append(lines, o.lines...)
 	}
 	if os.Getenv("C09_TIMING") != "" {
